@@ -9,7 +9,7 @@
    [op_ok B o]: the replies carried by op o are honest and a ReadAt offset is >= 0; [expected B off n] = bytes
    [off, min(off+n, size)) of the blob; [results c s os] = the result of every op of the history os. *)
 From Coq Require Import List ZArith NArith Bool Sorted Permutation.
-From SV Require Import Model.Region Model.BlobRead Model.BlobFn Proofs.Region Proofs.RegionCanon Proofs.BlobRead Proofs.BlobCanon Proofs.BlobFn.
+From SV Require Import Model.Region Model.BlobRead Model.BlobFn Proofs.Region Proofs.RegionCanon Proofs.BlobRead Proofs.BlobCanon Proofs.BlobLive Proofs.BlobFn.
 Import ListNotations.
 Open Scope Z_scope.
 
@@ -85,6 +85,20 @@ Theorem C06_read_at_exact :
       (forall off p0 rs d, o = ReadAt off p0 rs -> r = ROk d -> d = expected B off (zlen p0)).
 Proof. intros c B os Hc Hos. exact (results_spec c B Hc os (init c) (SIs_init c B) Hos). Qed.
 Print Assumptions C06_read_at_exact.
+
+(* "or an error" is not an escape hatch of the model: from every state reachable by a history, when the registry
+   answers the read's data request with the whole blob (status 200, complete body; whatever follows in the script),
+   ReadAt succeeds and returns exactly the requested bytes, for every offset >= 0 and every buffer. *)
+Theorem C06_read_succeeds_on_whole_body :
+  forall c B os off p0 rest s' r q,
+    cfg_ok c B -> c_handler c = false -> Forall (op_ok B) os -> 0 <= off ->
+    read_at c (exec c (init c) os) off p0 (R200 (c_size c) B :: rest) = (s', r, q) ->
+    r = ROk (expected B off (zlen p0)).
+Proof.
+  intros c B os off p0 rest s' r q Hc Hh Hos Ho.
+  exact (read_whole_body_succeeds c B _ off p0 rest s' r q Hc Hh Ho (exec_SIs c B os Hc Hos)).
+Qed.
+Print Assumptions C06_read_succeeds_on_whole_body.
 
 (* The results above are the ones the correspondence check compares with the implementation. *)
 Theorem C06_results_are_outputs :
